@@ -3332,15 +3332,49 @@ finish:
 }
 
 iwrc jbl_merge_patch_jbl(struct jbl *jbl, struct jbl *patch) {
-  struct iwxstr *xstr = iwxstr_create_empty();
-  if (!xstr) {
+  if (!jbl || !patch) {
+    return IW_ERROR_INVALID_ARGS;
+  }
+  // The patch is converted binary -> tree directly: a detour through JSON text would round its doubles to the eight
+  // fraction digits of the printer (5e-324 became 0, 0.123456789012 became 0.12345679).
+  binn bv;
+  struct jbl_node *target, *pn = 0, *res;
+  struct iwpool *pool = iwpool_create(2UL * (jbl->bn.size + patch->bn.size));
+  if (!pool) {
     return iwrc_set_errno(IW_ERROR_ALLOC, errno);
   }
-  iwrc rc = jbl_as_json(patch, jbl_xstr_json_printer, xstr, 0);
+  iwrc rc = _jbl_node_from_binn(&jbl->bn, &target, false, pool);
   RCGO(rc, finish);
-  rc = jbl_merge_patch(jbl, iwxstr_ptr(xstr));
+  if (!target) {
+    rc = IW_ERROR_INVALID_ARGS;
+    goto finish;
+  }
+  {
+    JBLDRCTX ctx = {
+      .pool = pool
+    };
+    rc = _jbl_node_from_binn_impl(&ctx, &patch->bn, 0, 0, -1, false);
+    RCGO(rc, finish);
+    pn = ctx.root;
+    if (!pn) { // a scalar patch document
+      rc = _jbl_create_node(&ctx, &patch->bn, 0, 0, -1, &pn, false);
+      RCGO(rc, finish);
+    }
+  }
+  res = _jbl_merge_patch_node(target, pn, pool, &rc);
+  RCGO(rc, finish);
+  if (res != target) {
+    memcpy(target, res, sizeof(*target)); // -V575
+  }
+  rc = _jbl_binn_from_node(&bv, target);
+  RCGO(rc, finish);
+
+  binn_free(&jbl->bn);
+  memcpy(&jbl->bn, &bv, sizeof(jbl->bn));
+  jbl->bn.allocated = 0;
+
 finish:
-  iwxstr_destroy(xstr);
+  iwpool_destroy(pool);
   return rc;
 }
 
